@@ -485,9 +485,15 @@ func checkResetChain(c *Ctx, rule string, val map[string]string) {
 			trBranch := FTrue(MCall("HasTrafficRoutings"))
 			_ = trBranch
 			// stage 2 reachable only via (cursor == ReleaseWorkloadControl) or success of stage 1
-			stage := func(label string, prev ssa.CallInstruction, cur ssa.CallInstruction, curTask string, needRetry bool) {
+			stage := func(label string, prev ssa.CallInstruction, cur ssa.CallInstruction, curTask, prevTask string, needRetry bool) {
 				cut := func(b *ssa.BasicBlock, k int) bool {
 					if EdgeFactMatches(b, k, FCmp("==", MField("FinalisingStep"), MConst(val[curTask]))) {
+						return true
+					}
+					// sequential form (`if step == prev {…}; if step == cur {…}`): passing over the previous
+					// stage because the cursor is not there is the resume edge too (that the cursor only
+					// moves forward after a success is what the cursor-store obligations below decide)
+					if EdgeFactMatches(b, k, FCmp("!=", MField("FinalisingStep"), MConst(val[prevTask]))) {
 						return true
 					}
 					return false
@@ -510,8 +516,8 @@ func checkResetChain(c *Ctx, rule string, val map[string]string) {
 				c.Ob(rule, "doProgressingReset#"+label, cur.Pos(), len(by) == 0, label+" only after the previous stage succeeded (or when resuming at the persisted cursor "+curTask+")",
 					ifs(len(by) > 0, "stage reachable without "+strings.Join(by, ", ")+" of "+CalleeName(prev.Common())))
 			}
-			stage("removeBatchRelease-after-RestoreGateway", gw[0], rmBR[0], tRelease, true)
-			stage("RemoveCanaryService-after-removeBatchRelease", rmBR[0], rmSvc[0], tRemoveSvc, true)
+			stage("removeBatchRelease-after-RestoreGateway", gw[0], rmBR[0], tRelease, tToStable, true)
+			stage("RemoveCanaryService-after-removeBatchRelease", rmBR[0], rmSvc[0], tRemoveSvc, tRelease, true)
 			// cursor stores
 			for _, st := range FieldStores([]*ssa.Function{fn}, "", "FinalisingStep") {
 				v, isC := StoredConst(st)
@@ -545,10 +551,9 @@ func checkResetChain(c *Ctx, rule string, val map[string]string) {
 					switch {
 					case HasFact(lf.Facts, FFalse(MCall("HasTrafficRoutings"))):
 						// no traffic routing: only the BatchRelease has to go
-						for _, call := range CallsIn(fn, "rollout.removeBatchRelease") {
-							if HasFact(lf.Facts, FNil(MResultOf(call, 1))) && HasFact(lf.Facts, FFalse(MResultOf(call, 0))) {
-								ok = true
-							}
+						// (by name: the call may sit in a helper this branch returns through)
+						if HasFact(lf.Facts, FNil(MResult("removeBatchRelease", 1))) && HasFact(lf.Facts, FFalse(MResult("removeBatchRelease", 0))) {
+							ok = true
 						}
 						why = "no traffic routing: done requires removeBatchRelease (err==nil, retry==false)"
 					case HasFact(lf.Facts, FNil(MCall("GetSubStatus"))):
